@@ -894,6 +894,11 @@ class Builder(object):
             msg = "ParseError: Building verb '%s'. Unused tokens." % (command,)
             raise excepting.ParseError(msg, tokens, index)
 
+        if not isinstance(init.get('period', 0.0), (int, float)):
+            msg = "ParseError: Building verb '%s'. Bad period '%s' in data." % \
+                (command, init['period'])
+            raise excepting.ParseError(msg, tokens, index)
+
         prefix += '/' + self.currentHouse.name #extra slashes are ignored
 
         try:
